@@ -144,6 +144,17 @@ def ldlStep (cmd : String) : P (List String) := do
     let C : Csc QQ := Csc.ofOpt c r entT
     let C' := A.transposeInto C
     pure [s!"cscouter {natsStr C'.outer}", s!"cscinner {natsStr C'.inner}", s!"cscvals {qqsStr C'.vals}"]
+  | "csc.istp" =>
+    -- is_transpose_pattern(A, C) on two independently given raw patterns
+    let r ← nat
+    let c ← nat
+    let entA ← dotsOpt r c
+    let r2 ← nat
+    let c2 ← nat
+    let entC ← dotsOpt r2 c2
+    let A : Csc QQ := Csc.ofOpt r c entA
+    let C : Csc QQ := Csc.ofOpt r2 c2 entC
+    pure [s!"istp {if Csc.isTransposePattern A C then 1 else 0}"]
   | "ord.amd" =>
     -- Eigen's AMD is not modelled: only "returns a permutation whose inverse table and perm/permt are consistent"
     pure ["isperm 1 inv 1 roundtrip 1"]
